@@ -97,6 +97,34 @@ def fresh_registry(gen):
     return reg
 
 
+_BACKGROUND_DEATHS = []
+_WATCH = []
+
+
+def _install_death_watch():
+    """Once per process: let ERROR records of the library through (everything below stays disabled) and keep the ones
+    that say a background task died of an unhandled exception."""
+    if _WATCH:
+        return
+    import logging
+
+    class _H(logging.Handler):
+        def emit(self, record):
+            try:
+                if str(record.msg).startswith("Unhandled exception in background task"):
+                    ei = record.exc_info
+                    _BACKGROUND_DEATHS.append(f"background task died: {type(ei[1]).__name__ if ei and ei[1] else ei}: {ei[1] if ei else ''}"[:200])
+            except Exception:  # noqa: BLE001
+                pass
+    h = _H(level=logging.ERROR)
+    lg = logging.getLogger("pyairtouch")
+    lg.addHandler(h)
+    lg.propagate = False
+    if logging.root.manager.disable >= logging.ERROR:
+        logging.disable(logging.WARNING)
+    _WATCH.append(h)
+
+
 class World:
     """Base class: fresh VLoop + Net; subclasses build the objects under test."""
 
@@ -106,6 +134,8 @@ class World:
         # the cyclic collector is switched off in worker processes (explorer._init_worker); worlds are full of
         # cycles (loop <-> tasks <-> frames), so collect by hand now and then or long enumerations eat the machine
         World._created += 1
+        _install_death_watch()
+        self._deaths0 = len(_BACKGROUND_DEATHS)
         if World._created % 1000 == 0:
             import gc
             gc.collect()
@@ -147,7 +177,10 @@ class World:
 
     def loop_reports(self):
         gc.collect(1)        # young generations: finalises this world's abandoned tasks ("exception never retrieved")
-        return list(self.loop.exc_reports)
+        # plus what the library itself reports about its background tasks: AirTouchSocket retrieves the exception of a
+        # task that died and logs it as an error ("Unhandled exception in background task.") - same thing, other channel
+        died = [r for r in _BACKGROUND_DEATHS[self._deaths0:]]
+        return list(self.loop.exc_reports) + died
 
 
 def net_state(net):
